@@ -94,9 +94,20 @@ def r2_formula(ctx):
         mag_abs_in = B("Div", B("Mul", M, ("abs", d)), K(128))
         pos_ok = {B("Add", fm, mag), B("Add", fm, mag_abs_in)}
         neg_ok = {B("Sub", fm, ("abs", mag)), B("Sub", fm, mag_abs_in)}
+        cand = []
         for w in live:
             # resolve the phi of max_movement for this flag: re-recover with only reachable definitions
             val = _resolve_phi(mv, w[4], f)
+            if val[0] == "phi":
+                # one assignment of `if delta < 0 { fm − m } else { fm + m }`: look at each direction under its own sign hypothesis
+                for hyp in ("gt0", "lt0"):
+                    table = {a[0]: SIGN_TRUTH[hyp][a[1]] for atoms in _sign_groups(mv, d).values() for a in atoms}
+                    fh = Forcing(mv, lambda x, table=table: table.get(x), param_vals={flag_local: C(flag)})
+                    if w[1] in fh.reach:
+                        cand.append((w, q.resolve_phis(mv, w[4], fh.reach)))
+            else:
+                cand.append((w, val))
+        for w, val in cand:
             nf = arith_nf(val)
             nf = _canon(nf)
             where = mv.where(w[1], w[2])
@@ -109,8 +120,8 @@ def r2_formula(ctx):
             else:
                 r.violation("formula/flag=%d/shape" % flag, "fee_multiplier := %s, expected fm ± trunc(%s·d/128)" % (show(nf, 300), show(M)), where)
         signs = set()
-        for w in live:
-            nf = _canon(arith_nf(_resolve_phi(mv, w[4], f)))
+        for w, val in cand:
+            nf = _canon(arith_nf(val))
             if nf in pos_ok:
                 signs.add("+")
             if nf in neg_ok:
@@ -135,9 +146,8 @@ def _resolve_phi(body, e, forcing):
     return q.resolve_phis(body, e, forcing.reach)
 
 
-def _sign_guards(r, mv, ws, fm, d):
-    """all comparisons of a delta-derived subject with zero are forced consistently to 'subject > 0' and to
-    'subject < 0'; a strictly positive movement must not reach the subtracting write and vice versa"""
+def _sign_groups(mv, d):
+    """comparisons of a delta-derived subject with zero, grouped by subject: {subject nf: [(expr, op, bb)]}"""
     groups = {}
     for bi, si, s in mv.iter_stmts():
         if s["k"] != "assign" or s["rv"]["k"] != "bin":
@@ -157,11 +167,21 @@ def _sign_guards(r, mv, ws, fm, d):
         if not q.contains(nf, lambda x: x == d):
             continue
         groups.setdefault(nf, []).append((e, op, bi))
+    return groups
+
+
+SIGN_TRUTH = {"gt0": {"Ge": 1, "Gt": 1, "Lt": 0, "Le": 0, "Eq": 0, "Ne": 1},
+              "lt0": {"Ge": 0, "Gt": 0, "Lt": 1, "Le": 1, "Eq": 0, "Ne": 1}}
+
+
+def _sign_guards(r, mv, ws, fm, d):
+    """all comparisons of a delta-derived subject with zero are forced consistently to 'subject > 0' and to
+    'subject < 0'; a strictly positive movement must not reach the subtracting write and vice versa"""
+    groups = _sign_groups(mv, d)
     if not groups:
         r.undecided("sign-guard", "no comparison of the movement with zero found")
         return
-    truth = {"gt0": {"Ge": 1, "Gt": 1, "Lt": 0, "Le": 0, "Eq": 0, "Ne": 1},
-             "lt0": {"Ge": 0, "Gt": 0, "Lt": 1, "Le": 1, "Eq": 0, "Ne": 1}}
+    truth = SIGN_TRUTH
     for subj, atoms in groups.items():
         for hyp in ("gt0", "lt0"):
             table = {a[0]: truth[hyp][a[1]] for a in atoms}
@@ -169,7 +189,7 @@ def _sign_guards(r, mv, ws, fm, d):
             for w in ws:
                 if w[1] not in f.reach:
                     continue
-                wnf = _canon(arith_nf(w[4]))
+                wnf = _canon(arith_nf(q.resolve_phis(mv, w[4], f.reach)))
                 is_add = wnf[0] == "bin" and wnf[1] == "Add"
                 is_sub = wnf[0] == "bin" and wnf[1] == "Sub"
                 where = mv.where(w[1], w[2])
